@@ -125,14 +125,23 @@ type govRandom struct {
 }
 
 type govInput struct {
-	Cfg    govCfg      `json:"cfg"`
-	Ops    []govOp     `json:"ops"`
-	States []mState    `json:"states"`
-	Init   int         `json:"init"`
-	Paths  [][]govStep `json:"paths"`
-	Random govRandom   `json:"random"`
-	RCfg   govCfg      `json:"rcfg"` // configuration of the random driver
-	Shards int         `json:"shards"`
+	Cfg    govCfg            `json:"cfg"`
+	Ops    []govOp           `json:"ops"`
+	States []json.RawMessage `json:"states"` // mState each, decoded on use (the table is large)
+	MaxH   int64             `json:"max_h"`
+	Init   int               `json:"init"`
+	Paths  [][]govStep       `json:"paths"`
+	Random govRandom         `json:"random"`
+	RCfg   govCfg            `json:"rcfg"` // configuration of the random driver
+	Shards int               `json:"shards"`
+}
+
+func (in *govInput) state(i int) *mState {
+	var m mState
+	if err := json.Unmarshal(in.States[i], &m); err != nil {
+		panic(err)
+	}
+	return &m
 }
 
 // ---------------------------------------------------------------- concretisation
@@ -147,9 +156,54 @@ func fromAer(x *big.Int) (int64, bool) {
 	return q.Int64(), r.Sign() == 0 && q.IsInt64()
 }
 
+// heightMap maps model heights onto block numbers.  The code compares when+86400 > blockNo; with model delay D
+// the map must satisfy real(w)+86400 > real(h) <=> w+D > h for all heights w <= h.  "linear": 86400/D blocks per
+// height.  For D = 2 the alternating gaps 86399,1,86399,... (and 1,86399,1,...) satisfy it too (every single gap is
+// < 86400, every two consecutive gaps add up to exactly 86400) and put a transaction one block inside the lock
+// period (when+86399) as well as exactly on its end (when+86400).  nil table: identity (random histories).
+type heightMap struct {
+	name string
+	real map[int64]uint64
+	back map[uint64]int64
+}
+
+func newHeightMap(name string, delay, maxH int64) *heightMap {
+	hm := &heightMap{name: name, real: map[int64]uint64{}, back: map[uint64]int64{0: 0}}
+	full := int64(system.StakingDelay)
+	no := int64(1000)
+	for h := int64(1); h <= maxH; h++ {
+		hm.real[h] = uint64(no)
+		hm.back[uint64(no)] = h
+		switch {
+		case name == "linear" || delay != 2:
+			no += full / delay
+		case (name == "inside-first") == (h%2 == 1):
+			no += full - 1
+		default:
+			no++
+		}
+	}
+	return hm
+}
+
+func (hm *heightMap) block(h int64) uint64 {
+	if hm.real == nil {
+		return uint64(h)
+	}
+	return hm.real[h]
+}
+
+func (hm *heightMap) model(no uint64) (int64, bool) {
+	if hm.real == nil {
+		return int64(no), true
+	}
+	h, ok := hm.back[no]
+	return h, ok
+}
+
 type world struct {
 	cfg      govCfg
-	k        int64 // real blocks per model height
+	hm       *heightMap // model heights <-> block numbers
 	addr     map[string][]byte
 	acctOf   map[string]string // hex address -> model account
 	cand     map[string][]byte
@@ -170,8 +224,8 @@ func issueScale(i string) *big.Int {
 
 // newWorld chooses concrete addresses (with a chosen voting-power bucket layout), candidate ids
 // (twins = ids that differ only in byte 6, i.e. outside the bytes [7:] the tie-break compares) and names.
-func newWorld(cfg govCfg, rng *rand.Rand, layout string, k int64) *world {
-	w := &world{cfg: cfg, k: k, addr: map[string][]byte{}, acctOf: map[string]string{}, cand: map[string][]byte{},
+func newWorld(cfg govCfg, rng *rand.Rand, layout string, hm *heightMap) *world {
+	w := &world{cfg: cfg, hm: hm, addr: map[string][]byte{}, acctOf: map[string]string{}, cand: map[string][]byte{},
 		candOf: map[string]string{}, name: map[string]string{}, nameOf: map[string]string{}, layout: layout,
 		scale: map[string]*big.Int{}, issueKey: map[string][]byte{}}
 	b0 := rng.Intn(71)
@@ -268,7 +322,7 @@ func (w *world) describe() map[string]interface{} {
 	for k, v := range w.cand {
 		c[k] = base58.Encode(v)
 	}
-	return map[string]interface{}{"accounts": a, "candidates": c, "names": w.name, "layout": w.layout, "blocks_per_height": w.k}
+	return map[string]interface{}{"accounts": a, "candidates": c, "names": w.name, "layout": w.layout, "heights": w.hm.name}
 }
 
 // ---------------------------------------------------------------- the system under test
@@ -536,8 +590,8 @@ func (s *sut) observe(prev *observation) (o *observation, err error) {
 	if err != nil {
 		return nil, err
 	}
-	st.H = int64(s.no) / w.k
-	if int64(s.no)%w.k != 0 {
+	var hok bool
+	if st.H, hok = w.hm.model(s.no); !hok {
 		bad("height", "block number %d is not a model height", s.no)
 	}
 	st.Sys = amt("sysBal", sysAcc.Balance())
@@ -559,8 +613,8 @@ func (s *sut) observe(prev *observation) (o *observation, err error) {
 			return nil, err
 		}
 		ma := mAcct{Bal: amt("bal", as.Balance()), Amt: amt("stake", sk.GetAmountBigInt()), Ever: sk.Amount != nil, Vote: map[string]mVote{}}
-		ma.When = int64(sk.GetWhen()) / w.k
-		if int64(sk.GetWhen())%w.k != 0 {
+		var wok bool
+		if ma.When, wok = w.hm.model(sk.GetWhen()); !wok {
 			bad("when", "staking.When %d of %s is not a model height", sk.GetWhen(), a)
 		}
 		for _, i := range w.cfg.Issues {
@@ -1186,24 +1240,27 @@ func (s *sut) stateChecks(rep *reporter, mode string, o *observation, lastOp *go
 var layouts = []string{"one-bucket", "free", "two-buckets"}
 
 func runGraph(in *govInput, shard, nshards int, res *verifkit.Result, rep *reporter) {
-	k := int64(system.StakingDelay) / in.Cfg.Delay
 	if int64(system.StakingDelay)%in.Cfg.Delay != 0 || system.StakingDelay != system.VotingDelay {
-		res.Note("cannot map the model delay %d onto StakingDelay=%d VotingDelay=%d", in.Cfg.Delay, system.StakingDelay, system.VotingDelay)
 		rep.violate(map[string]interface{}{"kind": "delay-constants"}, nil, "StakingDelay=%d and VotingDelay=%d cannot be mapped onto the model delay %d", system.StakingDelay, system.VotingDelay, in.Cfg.Delay)
 		return
 	}
+	maxH := in.MaxH
+	hmaps := []*heightMap{newHeightMap("inside-first", in.Cfg.Delay, maxH), newHeightMap("inside-second", in.Cfg.Delay, maxH), newHeightMap("linear", in.Cfg.Delay, maxH)}
 	roots := map[string]string{}  // concrete history -> state root at the block boundary
 	rootTwin := map[string]bool{} // history had a twin tie
 	worlds := map[string]*world{} // one concretisation per layout (so that histories are comparable)
 	for pi := shard; pi < len(in.Paths); pi += nshards {
 		path := in.Paths[pi]
-		layout := layouts[(pi/nshards)%len(layouts)]
-		w := worlds[layout]
+		// account layout and height map vary with the path (every combination occurs: 3 and 5 are coprime)
+		v := pi / nshards
+		layout := layouts[v%len(layouts)]
+		hm := hmaps[[]int{0, 1, 0, 1, 2}[v%5]]
+		w := worlds[layout+hm.name]
 		if w == nil {
-			w = newWorld(in.Cfg, verifkit.Rng(int64(len(layout))), layout, k)
-			worlds[layout] = w
+			w = newWorld(in.Cfg, verifkit.Rng(int64(len(layout))), layout, hm)
+			worlds[layout+hm.name] = w
 		}
-		s, err := newSut(w, uint64(in.States[in.Init].H*k))
+		s, err := newSut(w, hm.block(in.state(in.Init).H))
 		if err != nil {
 			panic(err)
 		}
@@ -1216,12 +1273,12 @@ func runGraph(in *govInput, shard, nshards int, res *verifkit.Result, rep *repor
 			if err != nil {
 				rep.violate(map[string]interface{}{"kind": "read-error"}, s.replay("graph", nil, ""), "%v", err)
 				return
-			} else if part, text := w.diff(&in.States[cur], curObs, true); part != "" {
+			} else if part, text := w.diff(in.state(cur), curObs, true); part != "" {
 				rep.violate(map[string]interface{}{"kind": "state-mismatch", "part": part, "op": "Init"}, s.replay("graph", nil, ""), "initial state: %s", text)
 				return
 			}
 			for si, step := range path {
-				src := &in.States[cur]
+				src := in.state(cur)
 				// refusals: every transaction the model refuses in this state, once per state
 				if len(step.Refuse) > 0 {
 					for _, ri := range step.Refuse {
@@ -1253,18 +1310,18 @@ func runGraph(in *govInput, shard, nshards int, res *verifkit.Result, rep *repor
 					}
 				}
 				// the step itself
-				dst := &in.States[step.Dst]
+				dst := in.state(step.Dst)
 				var lastOp *govOp
 				opName := "NextBlock"
 				boundary := false
 				if step.Op < 0 {
-					root, err := s.nextBlock(uint64(dst.H*k), step.Restart)
+					root, err := s.nextBlock(hm.block(dst.H), step.Restart)
 					if err != nil {
 						rep.violate(map[string]interface{}{"kind": "exec-error", "op": "NextBlock"}, s.replay("graph", nil, ""), "block boundary: %v", err)
 						return
 					}
 					boundary = true
-					hk := w.layout + "|" + strings.Join(s.hist[:len(s.hist)-1], ";")
+					hk := w.layout + hm.name + "|" + strings.Join(s.hist[:len(s.hist)-1], ";")
 					hs := sha256.Sum256([]byte(hk))
 					hkey := hex.EncodeToString(hs[:])
 					if prev, ok := roots[hkey]; ok && prev != hex.EncodeToString(root) {
@@ -1291,7 +1348,7 @@ func runGraph(in *govInput, shard, nshards int, res *verifkit.Result, rep *repor
 						return
 					}
 				}
-				res.Count(fmt.Sprintf("edge:%d:%d:%v:%s", cur, step.Op, step.Restart, w.layout))
+				res.Count(fmt.Sprintf("edge:%d:%d:%v:%s:%s", cur, step.Op, step.Restart, w.layout, hm.name))
 				o, err := s.observe(nil)
 				if err != nil {
 					rep.violate(map[string]interface{}{"kind": "read-error", "op": opName}, s.replay("graph", lastOp, ""), "%v", err)
@@ -1418,7 +1475,7 @@ func runRandom(in *govInput, shard, nshards int, res *verifkit.Result, rep *repo
 	enc := json.NewEncoder(trace)
 	for hi := shard; hi < in.Random.Histories; hi += nshards {
 		rng := verifkit.Rng(int64(500000 + hi))
-		w := newWorld(cfg, rng, layouts[hi%len(layouts)], 1)
+		w := newWorld(cfg, rng, layouts[hi%len(layouts)], &heightMap{name: "block numbers"})
 		start := uint64(1 + rng.Intn(1000))
 		s, err := newSut(w, start)
 		if err != nil {
@@ -1434,11 +1491,17 @@ func runRandom(in *govInput, shard, nshards int, res *verifkit.Result, rep *repo
 			}
 			emit(traceEvent{Ev: "Reset", H: int64(start), Obs: w.obsJSON(o)})
 			stakeAmts := []int64{0, 5000, 10000, 10000, 15000, 20000, 20000, 30000, 40000}
+			focus, focusLeft := "", 0
 			for n := 0; n < in.Random.Length; n++ {
 				st := &o.St
 				var op govOp
 				a := cfg.Accts[rng.Intn(len(cfg.Accts))]
-				switch r := rng.Intn(100); {
+				r := rng.Intn(100)
+				if focusLeft > 0 { // right after a jump to the edge of focus' lock period: lock-sensitive transactions by it
+					focusLeft--
+					a, r = focus, 18+rng.Intn(66)
+				}
+				switch {
 				case r < 18: // block boundary, often exactly around somebody's lock period
 					next := int64(s.no) + 1
 					if rng.Intn(4) > 0 {
@@ -1450,6 +1513,7 @@ func runRandom(in *govInput, shard, nshards int, res *verifkit.Result, rep *repo
 							}
 							if t > int64(s.no) {
 								next = t
+								focus, focusLeft = b, 1+rng.Intn(2)
 							}
 						}
 					}
